@@ -195,7 +195,7 @@ Definition xyz_ok (xb : buf) (xyz : list frame) (n_atoms : Z) : Prop :=
   forall fi f p, nth_error xyz fi = Some f -> 0 <= p < n_atoms ->
     rd3 xb (Z.of_nat fi * n_atoms * 3 + 3 * p) = nth_error f (Z.to_nat p).
 
-Lemma flat_xyz_ok xyz n : Forall (fun f => length f = n) xyz -> xyz_ok (flat_xyz xyz) xyz (Z.of_nat n).
+Lemma flat_xyz_ok (xyz : list frame) n : Forall (fun f : frame => length f = n) xyz -> xyz_ok (flat_xyz xyz) xyz (Z.of_nat n).
 Proof.
   intros Hn fi f p Hf Hp. unfold rd3.
   assert (H : forall k, (k < 3)%nat -> rd (flat_xyz xyz) (Z.of_nat fi * Z.of_nat n * 3 + 3 * p + Z.of_nat k) =
@@ -265,3 +265,511 @@ Proof.
     rewrite (nth_error_atom f1 _ n Hl1 B1), (nth_error_atom f2 _ n Hl2 B2).
     rewrite map_app, app_assoc. reflexivity.
 Qed.
+
+(* ------------------------------------------------------------------ the cell prologue *)
+Definition kbox_of (k : kkind) (B : box) : kbox :=
+  match k with
+  | KPlain => BNone
+  | KOrtho => BOrtho (vx (ba B), vy (bb B), vz (bc B))
+  | KTric => BTric (reduce rnd_haz B)
+  end.
+
+Definition handed (bs : list box) : buf := flat_mats (map (fun B => transpose9 (box_to_mat B)) bs).
+
+Lemma rd_handed bs i B c : nth_error bs i = Some B -> (c < 9)%nat ->
+  rd (handed bs) (Z.of_nat i * box_stride + Z.of_nat c) = nth_error (transpose9 (box_to_mat B)) c.
+Proof.
+  intros Hi Hc. unfold box_stride, handed, flat_mats. rewrite <- flat_map_concat_map.
+  replace (Z.of_nat i * 9 + Z.of_nat c) with (Z.of_nat (i * 9 + c)) by lia. rewrite rd_of_nat.
+  rewrite (nth_error_chunks (fun B0 => transpose9 (box_to_mat B0)) 9 bs) by (try reflexivity; exact Hc).
+  rewrite Hi. reflexivity.
+Qed.
+
+Lemma load_box_handed k bs i B : k <> KPlain -> nth_error bs i = Some B ->
+  load_box k (handed bs) (Z.of_nat i * box_stride) = Some (kbox_of k B).
+Proof.
+  intros Hk Hi. destruct k; [congruence| |].
+  - unfold load_box, rdv, ortho_idx. cbn [fst snd].
+    rewrite !(rd_handed bs i B) by (exact Hi || lia).
+    destruct B as [[[? ?] ?] [[? ?] ?] [[? ?] ?]]. reflexivity.
+  - unfold load_box, rdv, tric_idx1, tric_idx2, tric_idx3. cbn [fst snd].
+    rewrite !(rd_handed bs i B) by (exact Hi || lia).
+    destruct B as [[[? ?] ?] [[? ?] ?] [[? ?] ?]]. reflexivity.
+Qed.
+
+(* ------------------------------------------------------------------ the frame loop (dist, dist_mic, dist_mic_triclinic) *)
+Definition frame_ok (k : kkind) (xb bbuf : buf) (n : nat) (i : nat) (fB : frame * box) : Prop :=
+  length (fst fB) = n /\
+  (forall p, 0 <= p < Z.of_nat n -> rd3 xb (Z.of_nat i * Z.of_nat n * 3 + 3 * p) = nth_error (fst fB) (Z.to_nat p)) /\
+  load_box k bbuf (match k with KPlain => 0 | _ => Z.of_nat i * box_stride end) = Some (kbox_of k (snd fB)).
+
+Definition frames_body (k : kkind) (xb pb bbuf : buf) (n_atoms n_pairs : Z) := fun (_ : Z) (st : kstate) =>
+    let '(xoff, boff, out) := st in
+    match load_box k bbuf boff with
+    | None => (xoff, boff, None)
+    | Some kb =>
+        let out' := pair_loop kb xb pb xoff xoff n_pairs out in
+        (xoff + n_atoms * xyz_stride, (match k with KPlain => boff | _ => boff + box_stride end), out')
+    end.
+
+Lemma frames_loop_spec k xb pb bbuf n pairs : pairs_ok pb pairs -> valid_pairs (Z.of_nat n) pairs = true ->
+  forall items, (forall i fB, nth_error items i = Some fB -> frame_ok k xb bbuf n i fB) ->
+  for_z 0 (zlen items) (frames_body k xb pb bbuf (Z.of_nat n) (zlen pairs)) (0, 0, Some []) =
+  (zlen items * (Z.of_nat n * 3), match k with KPlain => 0 | _ => zlen items * box_stride end,
+   Some (flat_map (fun fB => map (pair_spec (kbox_of k (snd fB)) (fst fB) (fst fB)) pairs) items)).
+Proof.
+  intros Hpb Hv items. induction items as [|fB items IH] using rev_ind; intros Hok.
+  - unfold zlen. cbn [length Z.of_nat]. rewrite for_z_empty. destruct k; reflexivity.
+  - assert (Hok' : forall i fB0, nth_error items i = Some fB0 -> frame_ok k xb bbuf n i fB0).
+    { intros i fB0 Hi. apply Hok. rewrite nth_error_app1; [exact Hi | apply nth_error_Some; congruence]. }
+    destruct (Hok (length items) fB) as (Hl & Hx & Hb); [rewrite nth_error_app2, Nat.sub_diag by lia; reflexivity|].
+    unfold zlen in *. rewrite app_length. cbn [length].
+    replace (Z.of_nat (length items + 1)) with (Z.of_nat (length items) + 1) by lia.
+    rewrite for_z_snoc by lia. rewrite (IH Hok'). unfold frames_body at 1.
+    assert (Hb' : load_box k bbuf (match k with KPlain => 0 | _ => Z.of_nat (length items) * box_stride end) =
+                  Some (kbox_of k (snd fB))) by exact Hb.
+    rewrite Hb'.
+    assert (Hx' : forall p, 0 <= p < Z.of_nat n ->
+              rd3 xb (Z.of_nat (length items) * (Z.of_nat n * 3) + xyz_stride * p) = nth_error (fst fB) (Z.to_nat p)).
+    { intros p Hp. rewrite <- (Hx p Hp). f_equal. unfold xyz_stride. ring. }
+    rewrite (pair_loop_spec _ xb pb _ _ n (fst fB) (fst fB) Hl Hl Hx' Hx' pairs _ Hpb Hv).
+    rewrite flat_map_app. cbn [flat_map]. rewrite app_nil_r.
+    f_equal. f_equal.
+    + unfold xyz_stride. ring.
+    + destruct k; try reflexivity; unfold box_stride; ring.
+Qed.
+
+(* ------------------------------------------------------------------ the time-pair loop (dist_t, dist_mic_t, dist_mic_triclinic_t) *)
+Definition times_body (k : kkind) (xb pb tb bbuf : buf) (n_atoms n_pairs : Z) :=
+  fun (i : Z) (st : Z * option (list outrec)) =>
+    let '(boff, out) := st in
+    match rd tb (pair_stride * i + 0), rd tb (pair_stride * i + 1) with
+    | Some t1, Some t2 =>
+        let box_offset := t1 * box_stride in
+        let boff1 := boff + box_offset in
+        match load_box k bbuf boff1 with
+        | None => (boff, None)
+        | Some kb =>
+            let out' := pair_loop kb xb pb (xyz_stride * n_atoms * t1) (xyz_stride * n_atoms * t2) n_pairs out in
+            (boff1 - box_offset, out')
+        end
+    | _, _ => (boff, None)
+    end.
+
+Definition frame_at (xyz : list frame) (t : Z) : frame := nth (Z.to_nat t) xyz [].
+Definition box_of (bs : list box) (t : Z) : box := nth (Z.to_nat t) bs (mkbox vzero vzero vzero).
+
+Lemma times_loop_spec k xb pb tb bbuf n pairs (xyz : list frame) (bs : list box) :
+  pairs_ok pb pairs -> valid_pairs (Z.of_nat n) pairs = true ->
+  Forall (fun f : frame => length f = n) xyz -> xyz_ok xb xyz (Z.of_nat n) ->
+  (forall t, 0 <= t < zlen xyz ->
+     load_box k bbuf (match k with KPlain => 0 | _ => t * box_stride end) = Some (kbox_of k (box_of bs t))) ->
+  forall times, pairs_ok tb times -> valid_pairs (zlen xyz) times = true ->
+  for_z 0 (zlen times) (times_body k xb pb tb bbuf (Z.of_nat n) (zlen pairs)) (0, Some []) =
+  (0, Some (flat_map (fun t => map (pair_spec (kbox_of k (box_of bs (fst t))) (frame_at xyz (fst t)) (frame_at xyz (snd t)))
+                                  pairs) times)).
+Proof.
+  intros Hpb Hv Hn Hx Hb times. induction times as [|t times IH] using rev_ind; intros Htb Htv.
+  - unfold zlen. cbn [length Z.of_nat]. rewrite for_z_empty. reflexivity.
+  - unfold valid_pairs in Htv. rewrite forallb_app in Htv. apply andb_true_iff in Htv. destruct Htv as [Htv Ht].
+    cbn [forallb] in Ht. rewrite andb_true_r in Ht. apply andb_true_iff in Ht. destruct Ht as [Ht1 Ht2].
+    unfold valid_idx in Ht1, Ht2.
+    assert (B1 : 0 <= fst t < zlen xyz) by lia. assert (B2 : 0 <= snd t < zlen xyz) by lia.
+    unfold zlen in *. rewrite app_length. cbn [length].
+    replace (Z.of_nat (length times + 1)) with (Z.of_nat (length times) + 1) by lia.
+    rewrite for_z_snoc by lia. rewrite (IH (pairs_ok_app _ _ _ Htb) Htv). unfold times_body at 1.
+    destruct (Htb (length times) t) as [R1 R2]; [rewrite nth_error_app2, Nat.sub_diag by lia; reflexivity|].
+    rewrite R1, R2.
+    assert (Hb' : load_box k bbuf (0 + fst t * box_stride) = Some (kbox_of k (box_of bs (fst t)))).
+    { rewrite Z.add_0_l. rewrite <- (Hb (fst t) B1). destruct k; reflexivity. }
+    rewrite Hb'.
+    assert (Hf : forall t0, 0 <= t0 < Z.of_nat (length xyz) ->
+              length (frame_at xyz t0) = n /\
+              forall p, 0 <= p < Z.of_nat n ->
+                rd3 xb (xyz_stride * Z.of_nat n * t0 + xyz_stride * p) = nth_error (frame_at xyz t0) (Z.to_nat p)).
+    { intros t0 Ht0. assert (E : nth_error xyz (Z.to_nat t0) = Some (frame_at xyz t0)) by (apply nth_error_nth'; apply Nat2Z.inj_lt; rewrite Z2Nat.id; apply Ht0).
+      split.
+      - rewrite Forall_forall in Hn. apply Hn. eapply nth_error_In. exact E.
+      - intros p Hp. rewrite <- (Hx _ _ p E Hp). f_equal. unfold xyz_stride. rewrite Z2Nat.id by lia. ring. }
+    destruct (Hf _ B1) as [L1 X1]. destruct (Hf _ B2) as [L2 X2].
+    rewrite (pair_loop_spec _ xb pb _ _ n _ _ L1 L2 X1 X2 pairs _ Hpb Hv).
+    rewrite flat_map_app. cbn [flat_map]. rewrite app_nil_r.
+    f_equal. lia.
+Qed.
+
+(* ------------------------------------------------------------------ per-pair results are the model's path results *)
+Definition entry (p : path) (B : box) (r : vec) : outrec := (Some (norm2 (path_disp p B r)), path_disp p B r).
+
+Lemma pair_body_plain B r : pair_body (kbox_of KPlain B) r = entry PPlain B r.
+Proof. reflexivity. Qed.
+
+Lemma pair_body_ortho B r : pair_body (kbox_of KOrtho B) r = entry POrthoSSE B r.
+Proof. destruct B as [[[? ?] ?] [[? ?] ?] [[? ?] ?]], r as [[? ?] ?]. reflexivity. Qed.
+
+Lemma pair_body_tric B r : pair_body (kbox_of KTric B) r = entry PTricCpp B r.
+Proof.
+  cbn [pair_body kbox_of]. rewrite pair_tric_spec. unfold entry. rewrite path_tric_cpp. reflexivity.
+Qed.
+
+Lemma np_box_handed B : np_box (transpose9 (box_to_mat B)) = B.
+Proof. destruct B as [[[? ?] ?] [[? ?] ?] [[? ?] ?]]. reflexivity. Qed.
+
+Lemma np_pair_ortho B r : np_pair true (np_box (transpose9 (box_to_mat B))) r = entry POrthoNp B r.
+Proof. rewrite np_box_handed. reflexivity. Qed.
+
+Lemma np_pair_tric B r : np_pair false (np_box (transpose9 (box_to_mat B))) r = entry PTricNp B r.
+Proof. rewrite np_box_handed. unfold np_pair. rewrite image_search_np_spec. reflexivity. Qed.
+
+(* _distance_mic(_t) report the length of what _displacement_mic reports *)
+Lemma np_pair_dist_spec o B r : Some (np_pair_dist o B r) = fst (np_pair o B r).
+Proof.
+  unfold np_pair_dist, np_pair. destruct o; [reflexivity|].
+  rewrite image_min_np_spec, image_search_np_spec. reflexivity.
+Qed.
+
+Definition kind_path (k : kkind) : path := match k with KPlain => PPlain | KOrtho => POrthoSSE | KTric => PTricCpp end.
+Lemma pair_body_kind k B r : pair_body (kbox_of k B) r = entry (kind_path k) B r.
+Proof. destruct k; [apply pair_body_plain | apply pair_body_ortho | apply pair_body_tric]. Qed.
+
+(* ------------------------------------------------------------------ list plumbing *)
+Lemma opt_all_map_some {A : Type} (l : list A) : opt_all (map Some l) = Some l.
+Proof. induction l as [|x l IH]; [reflexivity|]. cbn [map opt_all]. rewrite IH. reflexivity. Qed.
+
+Lemma flat_map_map_some {A B C : Type} (E : A -> B -> C) (l : list A) (ps : list B) :
+  flat_map (fun t => map (fun pr => Some (E t pr)) ps) l = map Some (flat_map (fun t => map (E t) ps) l).
+Proof.
+  induction l as [|t l IH]; [reflexivity|]. cbn [flat_map]. rewrite map_app, IH, map_map. reflexivity.
+Qed.
+
+Lemma flat_map_map' {A B C : Type} (f : B -> list C) (g : A -> B) l : flat_map f (map g l) = flat_map (fun x => f (g x)) l.
+Proof. induction l as [|x l IH]; [reflexivity|]. cbn. rewrite IH. reflexivity. Qed.
+
+Lemma flat_map_ext_in' {A B : Type} (f g : A -> list B) l : (forall x, In x l -> f x = g x) -> flat_map f l = flat_map g l.
+Proof.
+  induction l as [|x l IH]; intros H; [reflexivity|]. cbn [flat_map].
+  rewrite (H x) by (left; reflexivity). rewrite IH by (intros y Hy; apply H; right; exact Hy). reflexivity.
+Qed.
+
+Lemma seq_lookup {X Y : Type} (H : X -> list Y) (d : list Y) l :
+  flat_map (fun i => match nth_error l i with Some x => H x | None => d end) (seq 0 (length l)) = flat_map H l.
+Proof.
+  induction l as [|x l IH]; [reflexivity|].
+  cbn [length seq flat_map nth_error]. rewrite <- seq_shift, flat_map_map'. cbn [nth_error]. rewrite IH. reflexivity.
+Qed.
+
+Lemma nth_error_combine {A B : Type} (l1 : list A) (l2 : list B) : forall i,
+  nth_error (combine l1 l2) i =
+  match nth_error l1 i, nth_error l2 i with Some a, Some b => Some (a, b) | _, _ => None end.
+Proof.
+  revert l2. induction l1 as [|a l1 IH]; intros l2 i.
+  - destruct i; reflexivity.
+  - destruct l2 as [|b l2]; [destruct i; cbn; [reflexivity | destruct (nth_error l1 i); reflexivity]|].
+    destruct i; cbn; [reflexivity | apply IH].
+Qed.
+
+Lemma valid_pairs_spec n pairs : valid_pairs n pairs = true <->
+  forall pr, In pr pairs -> 0 <= fst pr < n /\ 0 <= snd pr < n.
+Proof.
+  unfold valid_pairs, valid_idx. rewrite forallb_forall. split; intros H pr Hin; specialize (H pr Hin).
+  - apply andb_true_iff in H. destruct H as [H1 H2].
+    apply andb_true_iff in H1. apply andb_true_iff in H2. lia.
+  - apply andb_true_iff; split; apply andb_true_iff; lia.
+Qed.
+
+Lemma sep_valid n f1 f2 pr : length f1 = n -> length f2 = n ->
+  0 <= fst pr < Z.of_nat n -> 0 <= snd pr < Z.of_nat n ->
+  sep f1 f2 (to_natpair pr) = Some (vsub (atom f2 (snd pr)) (atom f1 (fst pr))).
+Proof.
+  intros L1 L2 B1 B2. unfold sep, to_natpair. cbn [fst snd].
+  rewrite (nth_error_atom f1 _ n L1 B1), (nth_error_atom f2 _ n L2 B2). reflexivity.
+Qed.
+
+Lemma kernel_frames_eq k xb pb bbuf nf na np :
+  kernel_frames k xb pb bbuf nf na np = snd (for_z 0 nf (frames_body k xb pb bbuf na np) (0, 0, Some [])).
+Proof. reflexivity. Qed.
+Lemma kernel_times_eq k xb pb tb bbuf nt na np :
+  kernel_times k xb pb tb bbuf nt na np = snd (for_z 0 nt (times_body k xb pb tb bbuf na np) (0, Some [])).
+Proof. reflexivity. Qed.
+
+(* ------------------------------------------------------------------ the API functions *)
+Definition dummy_box : box := mkbox vzero vzero vzero.
+Definition frame_items (periodic : bool) (xyz : list frame) (boxes : option (list box)) : list (frame * box) :=
+  match periodic, boxes with
+  | true, Some bs => combine xyz bs
+  | _, _ => map (fun f : frame => (f, dummy_box)) xyz
+  end.
+Definition cell_at (periodic : bool) (boxes : option (list box)) (t : Z) : box :=
+  match periodic, boxes with
+  | true, Some bs => box_of bs t
+  | _, _ => dummy_box
+  end.
+Definition api_shape (a : api) (rows : Z) (n_pairs : Z) : list Z :=
+  match a with ApiDisplacements => [rows; n_pairs; 3] | _ => [rows; n_pairs] end.
+
+Lemma zlen_nonempty {A : Type} (l : list A) : l <> [] -> (zlen l =? 0) = false.
+Proof. intros H. destruct l; [congruence|]. unfold zlen. cbn [length]. apply Z.eqb_neq. lia. Qed.
+
+(* the frame loop of the kernels on the buffers the glue hands over *)
+Lemma call_kernel_frames k n (xyz : list frame) (bs : list box) pairs :
+  Forall (fun f : frame => length f = n) xyz -> valid_pairs (Z.of_nat n) pairs = true ->
+  (k <> KPlain -> length bs = length xyz) ->
+  call_kernel k xyz bs pairs None (Z.of_nat n) =
+  Some (flat_map (fun fB => map (fun pr => entry (kind_path k) (snd fB) (vsub (atom (fst fB) (snd pr)) (atom (fst fB) (fst pr)))) pairs)
+                 (match k with KPlain => map (fun f : frame => (f, dummy_box)) xyz | _ => combine xyz bs end)).
+Proof.
+  intros Hn Hv Hl. unfold call_kernel. fold (handed bs). rewrite kernel_frames_eq.
+  set (items := match k with KPlain => map (fun f : frame => (f, dummy_box)) xyz | _ => combine xyz bs end).
+  assert (Hlen : zlen xyz = zlen items).
+  { unfold zlen, items. destruct k; [rewrite map_length; reflexivity | |]; rewrite combine_length, Hl by congruence; f_equal; lia. }
+  rewrite Hlen.
+  rewrite (frames_loop_spec k (flat_xyz xyz) (flat_pairs pairs) (handed bs) n pairs (flat_pairs_ok pairs) Hv items).
+  - cbn [snd]. f_equal. apply flat_map_ext. intros fB. apply map_ext. intros pr.
+    unfold pair_spec. apply pair_body_kind.
+  - intros i [f B] Hi. unfold frame_ok. cbn [fst snd].
+    assert (Hf : nth_error xyz i = Some f /\ (k <> KPlain -> nth_error bs i = Some B)).
+    { unfold items in Hi. destruct k.
+      - split; [|congruence]. rewrite nth_error_map in Hi. destruct (nth_error xyz i); [injection Hi as <- _; reflexivity | discriminate].
+      - rewrite nth_error_combine in Hi. destruct (nth_error xyz i), (nth_error bs i); try discriminate.
+        injection Hi as <- <-. split; [reflexivity | intros _; reflexivity].
+      - rewrite nth_error_combine in Hi. destruct (nth_error xyz i), (nth_error bs i); try discriminate.
+        injection Hi as <- <-. split; [reflexivity | intros _; reflexivity]. }
+    destruct Hf as [Hf HB]. split; [|split].
+    + rewrite Forall_forall in Hn. apply Hn. eapply nth_error_In. exact Hf.
+    + intros p Hp. apply (flat_xyz_ok xyz n Hn i f p Hf Hp).
+    + destruct k; [reflexivity | |]; apply load_box_handed; (congruence || (apply HB; congruence)).
+Qed.
+
+Lemma call_kernel_times k n (xyz : list frame) (bs : list box) pairs times :
+  Forall (fun f : frame => length f = n) xyz -> valid_pairs (Z.of_nat n) pairs = true ->
+  valid_pairs (zlen xyz) times = true -> (k <> KPlain -> length bs = length xyz) ->
+  call_kernel k xyz bs pairs (Some times) (Z.of_nat n) =
+  Some (flat_map (fun t => map (fun pr =>
+          entry (kind_path k) (box_of bs (fst t))
+                (vsub (atom (frame_at xyz (snd t)) (snd pr)) (atom (frame_at xyz (fst t)) (fst pr)))) pairs) times).
+Proof.
+  intros Hn Hv Htv Hl. unfold call_kernel. fold (handed bs). rewrite kernel_times_eq.
+  rewrite (times_loop_spec k (flat_xyz xyz) (flat_pairs pairs) (flat_pairs times) (handed bs) n pairs xyz bs
+             (flat_pairs_ok pairs) Hv Hn (flat_xyz_ok xyz n Hn)).
+  - cbn [snd]. f_equal. apply flat_map_ext. intros t. apply map_ext. intros pr. unfold pair_spec. apply pair_body_kind.
+  - intros t Ht. destruct k; [reflexivity | |].
+    all: replace t with (Z.of_nat (Z.to_nat t)) at 1 by lia; apply load_box_handed; [congruence|];
+      unfold box_of; apply nth_error_nth'; rewrite Hl by congruence; unfold zlen in Ht; apply Nat2Z.inj_lt; rewrite Z2Nat.id; lia.
+  - apply flat_pairs_ok.
+  - exact Htv.
+Qed.
+
+(* the python loops of the opt=False branches *)
+Lemma call_numpy_frames o n (xyz : list frame) (bs : list box) pairs :
+  Forall (fun f : frame => length f = n) xyz -> valid_pairs (Z.of_nat n) pairs = true -> length bs = length xyz ->
+  call_numpy o xyz bs pairs None =
+  Some (flat_map (fun fB => map (fun pr => entry (if o then POrthoNp else PTricNp) (snd fB)
+                                              (vsub (atom (fst fB) (snd pr)) (atom (fst fB) (fst pr)))) pairs)
+                 (combine xyz bs)).
+Proof.
+  intros Hn Hv Hl. unfold call_numpy, rows_of. rewrite flat_map_map'. cbn [fst snd].
+  assert (Hlc : length xyz = length (combine xyz bs)) by (rewrite combine_length, Hl; lia).
+  rewrite Hlc.
+  rewrite <- (opt_all_map_some (flat_map _ (combine xyz bs))). f_equal.
+  rewrite <- flat_map_map_some.
+  rewrite <- (seq_lookup (fun fB : frame * box => map (fun pr => Some (entry (if o then POrthoNp else PTricNp) (snd fB)
+                          (vsub (atom (fst fB) (snd pr)) (atom (fst fB) (fst pr))))) pairs) [None] (combine xyz bs)).
+  apply flat_map_ext. intros i. rewrite nth_error_combine.
+  destruct (nth_error xyz i) as [f|] eqn:Ef; [|reflexivity].
+  destruct (nth_error bs i) as [B|]; [|reflexivity]. cbn [fst snd].
+  apply map_ext_in. intros pr Hin.
+  assert (Lf : length f = n) by (rewrite Forall_forall in Hn; apply Hn; eapply nth_error_In; exact Ef).
+  destruct (proj1 (valid_pairs_spec _ _) Hv pr Hin) as [B1 B2].
+  rewrite (sep_valid n f f pr Lf Lf B1 B2). cbn [option_map np_sign]. f_equal.
+  destruct o; [apply np_pair_ortho | apply np_pair_tric].
+Qed.
+
+Lemma plain_numpy_frames n (xyz : list frame) pairs :
+  Forall (fun f : frame => length f = n) xyz -> valid_pairs (Z.of_nat n) pairs = true ->
+  plain_numpy xyz pairs None =
+  Some (flat_map (fun fB => map (fun pr => entry PPlain (snd fB) (vsub (atom (fst fB) (snd pr)) (atom (fst fB) (fst pr)))) pairs)
+                 (map (fun f : frame => (f, dummy_box)) xyz)).
+Proof.
+  intros Hn Hv. unfold plain_numpy, rows_of. rewrite !flat_map_map'. cbn [fst snd].
+  rewrite <- (opt_all_map_some (flat_map _ xyz)). f_equal.
+  rewrite <- flat_map_map_some.
+  rewrite <- (seq_lookup (fun f : frame => map (fun pr => Some (entry PPlain dummy_box
+                          (vsub (atom f (snd pr)) (atom f (fst pr))))) pairs) [None] xyz).
+  apply flat_map_ext. intros i.
+  destruct (nth_error xyz i) as [f|] eqn:Ef; [|reflexivity].
+  apply map_ext_in. intros pr Hin.
+  assert (Lf : length f = n) by (rewrite Forall_forall in Hn; apply Hn; eapply nth_error_In; exact Ef).
+  destruct (proj1 (valid_pairs_spec _ _) Hv pr Hin) as [B1 B2].
+  rewrite (sep_valid n f f pr Lf Lf B1 B2). reflexivity.
+Qed.
+
+Lemma frame_lookup n (xyz : list frame) t : Forall (fun f : frame => length f = n) xyz -> 0 <= t < zlen xyz ->
+  nth_error xyz (Z.to_nat t) = Some (frame_at xyz t) /\ length (frame_at xyz t) = n.
+Proof.
+  intros Hn Ht. assert (E : nth_error xyz (Z.to_nat t) = Some (frame_at xyz t)).
+  { apply nth_error_nth'. unfold zlen in Ht. apply Nat2Z.inj_lt. rewrite Z2Nat.id; lia. }
+  split; [exact E|]. rewrite Forall_forall in Hn. apply Hn. eapply nth_error_In. exact E.
+Qed.
+
+Lemma call_numpy_times o n (xyz : list frame) (bs : list box) pairs times :
+  Forall (fun f : frame => length f = n) xyz -> valid_pairs (Z.of_nat n) pairs = true ->
+  valid_pairs (zlen xyz) times = true -> length bs = length xyz ->
+  call_numpy o xyz bs pairs (Some times) =
+  Some (flat_map (fun t => map (fun pr =>
+          entry (if o then POrthoNp else PTricNp) (box_of bs (fst t))
+                (vneg (vsub (atom (frame_at xyz (snd t)) (snd pr)) (atom (frame_at xyz (fst t)) (fst pr))))) pairs) times).
+Proof.
+  intros Hn Hv Htv Hl. unfold call_numpy, rows_of. rewrite flat_map_map'.
+  rewrite <- (opt_all_map_some (flat_map _ times)). f_equal.
+  rewrite <- flat_map_map_some.
+  apply flat_map_ext_in'. intros t Hin. unfold to_natpair at 1 2 3. cbn [fst snd].
+  destruct (proj1 (valid_pairs_spec _ _) Htv t Hin) as [T1 T2].
+  destruct (frame_lookup n xyz _ Hn T1) as [E1 L1]. destruct (frame_lookup n xyz _ Hn T2) as [E2 L2].
+  rewrite E1, E2.
+  assert (EB : nth_error bs (Z.to_nat (fst t)) = Some (box_of bs (fst t))).
+  { apply nth_error_nth'. rewrite Hl. unfold zlen in T1. apply Nat2Z.inj_lt. rewrite Z2Nat.id; lia. }
+  rewrite EB. apply map_ext_in. intros pr Hp.
+  destruct (proj1 (valid_pairs_spec _ _) Hv pr Hp) as [B1 B2].
+  rewrite (sep_valid n _ _ pr L1 L2 B1 B2). cbn [option_map np_sign]. f_equal.
+  destruct o; [apply np_pair_ortho | apply np_pair_tric].
+Qed.
+
+Lemma plain_numpy_times n (xyz : list frame) pairs times :
+  Forall (fun f : frame => length f = n) xyz -> valid_pairs (Z.of_nat n) pairs = true ->
+  valid_pairs (zlen xyz) times = true ->
+  plain_numpy xyz pairs (Some times) =
+  Some (flat_map (fun t => map (fun pr =>
+          entry PPlain dummy_box
+                (vneg (vsub (atom (frame_at xyz (snd t)) (snd pr)) (atom (frame_at xyz (fst t)) (fst pr))))) pairs) times).
+Proof.
+  intros Hn Hv Htv. unfold plain_numpy, rows_of. rewrite flat_map_map'.
+  rewrite <- (opt_all_map_some (flat_map _ times)). f_equal.
+  rewrite <- flat_map_map_some.
+  apply flat_map_ext_in'. intros t Hin. unfold to_natpair at 1 2. cbn [fst snd].
+  destruct (proj1 (valid_pairs_spec _ _) Htv t Hin) as [T1 T2].
+  destruct (frame_lookup n xyz _ Hn T1) as [E1 L1]. destruct (frame_lookup n xyz _ Hn T2) as [E2 L2].
+  rewrite E1, E2. apply map_ext_in. intros pr Hp.
+  destruct (proj1 (valid_pairs_spec _ _) Hv pr Hp) as [B1 B2].
+  rewrite (sep_valid n _ _ pr L1 L2 B1 B2). reflexivity.
+Qed.
+
+(* ================================================================== the API functions *)
+(* ValueError exactly for an index outside the range (atoms; frames for compute_distances_t) or, when a
+   non-empty pair list is evaluated periodically, a cell array whose length is not the number of frames *)
+Theorem api_error_iff a opt periodic n_atoms (xyz : list frame) boxes pairs times :
+  api_call a opt periodic n_atoms xyz boxes pairs times = Err ValueError <->
+  (valid_pairs n_atoms pairs = false \/
+   (a = ApiDistancesT /\ valid_pairs (zlen xyz) times = false) \/
+   (pairs <> [] /\ periodic = true /\ exists bs, boxes = Some bs /\ length bs <> length xyz)).
+Proof.
+  unfold api_call.
+  destruct (valid_pairs n_atoms pairs) eqn:Ev; cbn [negb]; [|split; [intros _; left; reflexivity | reflexivity]].
+  assert (Et : (match a with ApiDistancesT => negb (valid_pairs (zlen xyz) times) | _ => false end) = true <->
+               (a = ApiDistancesT /\ valid_pairs (zlen xyz) times = false)).
+  { destruct a; try (split; [discriminate | intros [? _]; discriminate]).
+    destruct (valid_pairs (zlen xyz) times); cbn; split; try discriminate; auto. intros [_ ?]; discriminate. }
+  destruct (match a with ApiDistancesT => negb (valid_pairs (zlen xyz) times) | _ => false end) eqn:Em.
+  { split; [intros _; right; left; apply Et; reflexivity | reflexivity]. }
+  assert (Nt : ~ (a = ApiDistancesT /\ valid_pairs (zlen xyz) times = false)) by (intros H; apply Et in H; discriminate).
+  destruct pairs as [|pr pairs].
+  { cbn [zlen length Z.of_nat Z.eqb]. split; [discriminate|]. intros [H|[H|[H _]]]; [discriminate | tauto | congruence]. }
+  rewrite (zlen_nonempty (pr :: pairs)) by discriminate.
+  assert (Plain : forall X Y : res (option (list outrec)), (exists s d, X = Ok s d) -> (exists s d, Y = Ok s d) ->
+            (periodic = false \/ boxes = None) ->
+            ((if opt then X else Y) = Err ValueError <->
+             (true = false \/ (a = ApiDistancesT /\ valid_pairs (zlen xyz) times = false) \/
+              (pr :: pairs <> [] /\ periodic = true /\ exists bs, boxes = Some bs /\ length bs <> length xyz)))).
+  { intros X Y (s1 & d1 & ->) (s2 & d2 & ->) Hpb. split; [destruct opt; discriminate|].
+    intros [H|[H|(_ & H & bs' & H' & _)]]; [discriminate | tauto | destruct Hpb; congruence]. }
+  destruct periodic, boxes as [bs|]; try (apply Plain; eauto; fail).
+  destruct (zlen bs =? zlen xyz) eqn:El; cbn [negb].
+  - apply Z.eqb_eq in El. unfold zlen in El. destruct opt; (split; [discriminate|]);
+      intros [H|[H|(_ & _ & bs' & H' & Hne)]]; try discriminate; try tauto; injection H' as <-; lia.
+  - apply Z.eqb_neq in El. unfold zlen in El. split; [|reflexivity]. intros _. right. right.
+    split; [discriminate|]. split; [reflexivity|]. exists bs. split; [reflexivity | lia].
+Qed.
+
+(* compute_displacements / compute_distances(_core) on validated input: no kernel read leaves its buffer, and
+   the entry for frame i and pair (p1, p2) is the result of the dispatched code path of PBC/Model.v on
+   xyz[i][p2] - xyz[i][p1] with the cell of frame i *)
+Theorem api_frames_refines a opt periodic n (xyz : list frame) boxes pairs times :
+  a <> ApiDistancesT -> Forall (fun f : frame => length f = n) xyz ->
+  valid_pairs (Z.of_nat n) pairs = true -> pairs <> [] ->
+  (forall bs, periodic = true -> boxes = Some bs -> length bs = length xyz) ->
+  api_call a opt periodic (Z.of_nat n) xyz boxes pairs times =
+  Ok (api_shape a (zlen xyz) (zlen pairs))
+     (Some (flat_map (fun fB => map (fun pr =>
+              entry (dispatch opt periodic boxes) (snd fB) (vsub (atom (fst fB) (snd pr)) (atom (fst fB) (fst pr)))) pairs)
+            (frame_items periodic xyz boxes))).
+Proof.
+  intros Ha Hn Hv Hne Hl. unfold api_call. rewrite Hv. cbn [negb].
+  replace (match a with ApiDistancesT => negb (valid_pairs (zlen xyz) times) | _ => false end) with false
+    by (destruct a; congruence).
+  rewrite (zlen_nonempty pairs Hne).
+  replace (match a with ApiDistancesT => Some times | _ => None end) with (@None (list (Z * Z))) by (destruct a; congruence).
+  replace (match a with ApiDistancesT => zlen times | _ => zlen xyz end) with (zlen xyz) by (destruct a; congruence).
+  fold (api_shape a (zlen xyz) (zlen pairs)).
+  unfold frame_items, dispatch.
+  destruct periodic; [destruct boxes as [bs|]|].
+  - specialize (Hl bs eq_refl eq_refl). unfold zlen at 1 2. rewrite Hl, Z.eqb_refl. cbn [negb].
+    destruct opt.
+    + destruct (forallb is_orthob bs); f_equal; rewrite call_kernel_frames by (auto; congruence); reflexivity.
+    + f_equal. rewrite (call_numpy_frames _ n) by auto. destruct (forallb is_orthob bs); reflexivity.
+  - destruct opt; f_equal; [rewrite (call_kernel_frames KPlain n) by (auto; congruence) | rewrite (plain_numpy_frames n) by auto]; reflexivity.
+  - destruct opt; f_equal; [rewrite (call_kernel_frames KPlain n) by (auto; congruence) | rewrite (plain_numpy_frames n) by auto];
+      destruct boxes; reflexivity.
+Qed.
+
+(* compute_distances_t: entry for time pair (t1, t2) and atom pair (p1, p2) = the dispatched path on
+   xyz[t2][p2] - xyz[t1][p1] (opposite sign on the numpy path) with the cell of frame t1 *)
+Theorem api_times_refines opt periodic n (xyz : list frame) boxes pairs times :
+  Forall (fun f : frame => length f = n) xyz ->
+  valid_pairs (Z.of_nat n) pairs = true -> valid_pairs (zlen xyz) times = true -> pairs <> [] ->
+  (forall bs, periodic = true -> boxes = Some bs -> length bs = length xyz) ->
+  api_call ApiDistancesT opt periodic (Z.of_nat n) xyz boxes pairs times =
+  Ok [zlen times; zlen pairs]
+     (Some (flat_map (fun t => map (fun pr =>
+              let r := vsub (atom (frame_at xyz (snd t)) (snd pr)) (atom (frame_at xyz (fst t)) (fst pr)) in
+              entry (dispatch opt periodic boxes) (cell_at periodic boxes (fst t)) (if opt then r else vneg r)) pairs)
+            times)).
+Proof.
+  intros Hn Hv Htv Hne Hl. unfold api_call. rewrite Hv, Htv. cbn [negb].
+  rewrite (zlen_nonempty pairs Hne).
+  unfold cell_at, dispatch.
+  destruct periodic; [destruct boxes as [bs|]|].
+  - specialize (Hl bs eq_refl eq_refl). unfold zlen at 1 2. rewrite Hl, Z.eqb_refl. cbn [negb].
+    destruct opt.
+    + destruct (forallb is_orthob bs); f_equal; rewrite call_kernel_times by (auto; congruence); reflexivity.
+    + f_equal. rewrite (call_numpy_times _ n) by auto. destruct (forallb is_orthob bs); reflexivity.
+  - destruct opt; f_equal; [rewrite (call_kernel_times KPlain n) by (auto; congruence) | rewrite (plain_numpy_times n) by auto]; reflexivity.
+  - destruct opt; f_equal; [rewrite (call_kernel_times KPlain n) by (auto; congruence) | rewrite (plain_numpy_times n) by auto];
+      destruct boxes; reflexivity.
+Qed.
+
+(* an empty pair list: zeros of the documented shape, whatever else is passed (valid frame indices for _t) *)
+Theorem api_empty_pairs a opt periodic n_atoms (xyz : list frame) boxes times :
+  (a = ApiDistancesT -> valid_pairs (zlen xyz) times = true) ->
+  api_call a opt periodic n_atoms xyz boxes [] times =
+  Ok (api_shape a (match a with ApiDistancesT => zlen times | _ => zlen xyz end) 0) (Some []).
+Proof.
+  intros Ht. unfold api_call. cbn [valid_pairs forallb negb zlen length Z.of_nat Z.eqb].
+  destruct a; try reflexivity. rewrite (Ht eq_refl). reflexivity.
+Qed.
+
+(* the validation is needed: without it the kernel reads outside the coordinate buffer *)
+Lemma kernel_unvalidated_reads_outside :
+  kernel_frames KPlain (flat_xyz [[(0, 0, 0); (1, 1, 1)]]) (flat_pairs [(0, 2)]) [] 1 2 1 = None /\
+  kernel_frames KPlain (flat_xyz [[(0, 0, 0); (1, 1, 1)]]) (flat_pairs [(-1, 1)]) [] 1 2 1 = None /\
+  valid_pairs 2 [(0, 2)] = false /\ valid_pairs 2 [(-1, 1)] = false.
+Proof. vm_compute. repeat split. Qed.
+
+Lemma api_example :
+  let B := mkbox (3072, 0, 0) (5120, 3000, 0) (-7000, 8100, 2900) in
+  let xyz := [[(0, 0, 0); (117204, -30050, -28940)]; [(5, 5, 5); (100, -50, 60)]] in
+  api_call ApiDisplacements true true 2 xyz (Some [B; B]) [(0, 1); (1, 1)] [] =
+    Ok [2; 2; 3] (Some [(Some 16100, (100, -50, 60)); (Some 0, (0, 0, 0));
+                        (Some 15075, (95, -55, 55)); (Some 0, (0, 0, 0))]) /\
+  api_call ApiDistancesT false true 2 xyz (Some [B; B]) [(0, 1)] [(1, 0)] =
+    Ok [1; 1] (Some [(Some 15075, (-95, 55, -55))]) /\
+  api_call ApiDistancesCore true true 2 xyz (Some [B]) [(0, 1)] [] = Err ValueError /\
+  api_call ApiDistancesCore true true 2 xyz (Some [B; B]) [(0, 2)] [] = Err ValueError.
+Proof. vm_compute. repeat split. Qed.
